@@ -41,20 +41,288 @@ func wildGen(r *Rng, pool *PathPool) *TreeGen {
 }
 
 func registerChecks() {
+	registerImportChecks()
+	fileCases := func(cx *CheckCtx, n int, tg func(r *Rng, pool *PathPool) *TreeGen, cfg FileCfg, maxDecl int) []*Case {
+		var cs []*Case
+		for i := 0; i < n; i++ {
+			cs = append(cs, genFileCase(cx, i, tg, 1+cx.R.Intn(maxDecl), cfg, 1))
+		}
+		return cs
+	}
+	plainCfg := defaultFileCfg
+	plainCfg.commentPct = 0
+	// C01 is registered in checks_c01.go
+	registerC01()
 	checks["C02"] = &PropCheck{
 		Gen: func(cx *CheckCtx) []*Case {
 			var cs []*Case
 			n := cx.N(3000, 200000)
 			for i := 0; i < n; i++ {
 				r := cx.R
-				if i%3 == 0 {
-					cs = append(cs, genFileCase(cx, i, validGen, 1+r.Intn(3), defaultFileCfg, 1))
-				} else {
-					c := genFileCase(cx, i, wildGen, 1+r.Intn(3), defaultFileCfg, 1)
-					cs = append(cs, c)
+				var c *Case
+				switch i % 4 {
+				case 0:
+					c = genFileCase(cx, i, validGen, 1+r.Intn(3), defaultFileCfg, 1)
+				case 1:
+					c = damage(genFileCase(cx, i, validGen, 1+r.Intn(3), defaultFileCfg, 1), r)
+				default:
+					c = genFileCase(cx, i, wildGen, 1+r.Intn(3), defaultFileCfg, 1)
+				}
+				cs = append(cs, withFrags(c, r))
+			}
+			return cs
+		},
+		Oracle: oracleC02,
+	}
+	checks["C07"] = &PropCheck{
+		Gen: func(cx *CheckCtx) []*Case {
+			var cs []*Case
+			for i := 0; i < cx.N(1200, 40000); i++ {
+				cs = append(cs, dropInsane(genFileCase(cx, i, func(r *Rng, pool *PathPool) *TreeGen {
+					g := validGen(r, sanePool(r, 3+r.Intn(4)))
+					g.multiDictQual = r.Chance(30)
+					return g
+				}, 1+cx.R.Intn(3), defaultFileCfg, 1)))
+			}
+			for i := 0; i < cx.N(400, 5000); i++ {
+				cs = append(cs, genDictCase(cx, 500000+i, true))
+			}
+			// the D7 shape: Dict keys referencing not-yet-imported packages with one base name
+			for i := 0; i < cx.N(100, 2000); i++ {
+				r := cx.R.Fork()
+				c := &Case{ID: fmt.Sprintf("C07-d7-%d-%d", cx.Seed, i)}
+				c.Ops = append(c.Ops, Op{Kind: OpFile, F: 0, Str: []string{"new", "", "p"}})
+				d := &Dict{}
+				for k := 0; k < 2+r.Intn(4); k++ {
+					d.Pairs = append(d.Pairs, [2]Arg{st(Qual{Path: fmt.Sprintf("h%d.com/d", k), Name: qName(k)}), st(mkLit(k))})
+				}
+				c.Ops = append(c.Ops, Op{Kind: OpFAdd, F: 0, Args: []Arg{st(kw("Var"), id("m"), op("="), &Grp{Api: "Map", Args: []Arg{st(kw("Any"))}}, kw("Any"), &Grp{Api: "Values", Args: []Arg{d}})}})
+				c.Ops = append(c.Ops, Op{Kind: OpRender, F: 0})
+				cs = append(cs, c)
+			}
+			for i := 0; i < cx.N(300, 10000); i++ {
+				cs = append(cs, genTagCases(&CheckCtx{Prop: "C07t", Tier: "quick", Seed: cx.Seed, R: cx.R.Fork(), Stats: cx.Stats})[:1]...)
+			}
+			return cs
+		},
+		Oracle: oracleC07,
+	}
+	checks["C08"] = &PropCheck{
+		Gen: func(cx *CheckCtx) []*Case {
+			var cs []*Case
+			for i := 0; i < cx.N(2000, 80000); i++ {
+				cs = append(cs, genHistoryCase(cx, i))
+			}
+			return cs
+		},
+		Oracle: oracleC08,
+	}
+	checks["C09"] = &PropCheck{
+		Gen: func(cx *CheckCtx) []*Case {
+			var cs []*Case
+			for i := 0; i < cx.N(300, 8000); i++ {
+				cs = append(cs, genSharedCase(cx, i))
+			}
+			cs = append(cs, fileCases(cx, cx.N(300, 4000), validGen, defaultFileCfg, 3)...)
+			return cs
+		},
+		Oracle: oracleC09,
+	}
+	checks["C10"] = &PropCheck{
+		Gen: func(cx *CheckCtx) []*Case {
+			var cs []*Case
+			for i := 0; i < cx.N(500, 12000); i++ {
+				r := cx.R
+				var c *Case
+				switch i % 3 {
+				case 0:
+					c = genFileCase(cx, i, validGen, 1+r.Intn(2), defaultFileCfg, 1)
+				case 1:
+					c = genFileCase(cx, i, wildGen, 1+r.Intn(2), defaultFileCfg, 1)
+				default:
+					// fragment entry points
+					c = genFileCase(cx, i, validGen, 1, defaultFileCfg, 0)
+					c.Ops = append(c.Ops, Op{Kind: OpStmt, S: 900, Items: validGen(cx.R.Fork(), sanePool(cx.R, 2)).stmt(3).Items})
+					if r.Bool() {
+						c.Ops = append(c.Ops, Op{Kind: OpFrag, S: 900, F: 0})
+					} else {
+						c.Ops = append(c.Ops, Op{Kind: OpGFrag, F: 0, F2: 0})
+					}
+				}
+				cs = append(cs, c)
+			}
+			return cs
+		},
+		Oracle: oracleC10,
+	}
+	checks["C11"] = &PropCheck{Gen: genLitCases, Oracle: oracleC11}
+	checks["C12"] = &PropCheck{Gen: genStrCases, Oracle: oracleC12}
+	checks["C13"] = &PropCheck{
+		Gen: func(cx *CheckCtx) []*Case {
+			var cs []*Case
+			for i := 0; i < cx.N(1500, 50000); i++ {
+				base := genFileCase(cx, i, func(r *Rng, pool *PathPool) *TreeGen {
+					g := validGen(r, pool)
+					g.voids = false
+					return g
+				}, 1+cx.R.Intn(3), plainCfg, 1)
+				cs = append(cs, base, injectVoids(base, cx.R.Fork(), 10+cx.R.Intn(30)))
+			}
+			// every variadic construct x arities 0..12 x one void at every position
+			for _, api := range grpVariadic {
+				for ar := 0; ar <= cx.N(6, 12); ar++ {
+					var args []Arg
+					for k := 0; k < ar; k++ {
+						args = append(args, st(id(fmt.Sprintf("a%d", k))))
+					}
+					base := &Case{ID: fmt.Sprintf("C13-%s-%d", api, ar)}
+					base.Ops = append(base.Ops, Op{Kind: OpFile, F: 0, Str: []string{"new", "", "p"}}, Op{Kind: OpSet, F: 0, Str: []string{"noformat", "1"}})
+					base.Ops = append(base.Ops, Op{Kind: OpFAdd, F: 0, Args: []Arg{st(id("x"), &Grp{Api: api, Args: args})}}, Op{Kind: OpRender, F: 0})
+					cs = append(cs, base, injectVoids(base, cx.R.Fork(), 50))
 				}
 			}
 			return cs
 		},
+		Oracle: func(cx *CheckCtx, runs []*CaseRun) []Finding {
+			return pairOracle(cx, runs, "C13", "injecting nil/Null()/empty items changed the output", func(a, b string) (bool, string) {
+				if a == b {
+					return true, ""
+				}
+				return false, "rendered bytes differ"
+			})
+		},
 	}
+	checks["C14"] = &PropCheck{
+		Gen: func(cx *CheckCtx) []*Case {
+			cs := fileCases(cx, cx.N(1200, 50000), validGen, defaultFileCfg, 3)
+			cs = append(cs, fileCases(cx, cx.N(600, 30000), wildGen, defaultFileCfg, 3)...)
+			for i, c := range cs {
+				cs[i] = withFrags(c, cx.R)
+			}
+			return cs
+		},
+		Oracle: oracleC14,
+	}
+	checks["C15"] = &PropCheck{
+		Gen: func(cx *CheckCtx) []*Case {
+			var cs []*Case
+			cfg := plainCfg
+			for i := 0; i < cx.N(1500, 50000); i++ {
+				base := genFileCase(cx, i, func(r *Rng, pool *PathPool) *TreeGen {
+					g := validGen(r, sanePool(r, 2+r.Intn(3)))
+					g.voids, g.comments = false, false
+					return g
+				}, 1+cx.R.Intn(3), cfg, 1)
+				base = dropInsane(base)
+				cs = append(cs, base, injectComments(base, cx.R.Fork(), 15+cx.R.Intn(30)))
+			}
+			// file-level comments
+			fcfg := defaultFileCfg
+			fcfg.commentPct = 100
+			for i := 0; i < cx.N(500, 20000); i++ {
+				c := genFileCase(cx, 700000+i, func(r *Rng, pool *PathPool) *TreeGen {
+					g := validGen(r, sanePool(r, 2))
+					g.comments = false
+					return g
+				}, 1, fcfg, 1)
+				cs = append(cs, dropSaneCanonical(c))
+			}
+			return cs
+		},
+		Oracle: oracleC15,
+	}
+	checks["C16"] = &PropCheck{
+		Gen: func(cx *CheckCtx) []*Case {
+			var cs []*Case
+			for i := 0; i < cx.N(3000, 100000); i++ {
+				cs = append(cs, genDictCase(cx, i, cx.R.Chance(30)))
+			}
+			return cs
+		},
+		Oracle: oracleC16,
+	}
+	checks["C17"] = &PropCheck{Gen: genTagCases, Oracle: oracleC17}
+	checks["C20"] = &PropCheck{
+		Gen: func(cx *CheckCtx) []*Case {
+			var cs []*Case
+			for i := 0; i < cx.N(1500, 100000); i++ {
+				cs = append(cs, genCloneCase(cx, i))
+			}
+			return cs
+		},
+		Oracle: oracleC20,
+	}
+}
+
+// canonical paths must be sane import paths for the parse-based oracle
+func dropSaneCanonical(c *Case) *Case { return dropInsane(c) }
+
+// genHistoryCase: interleavings of additions, hints, file renders and fragment renders
+func genHistoryCase(cx *CheckCtx, i int) *Case {
+	r := cx.R.Fork()
+	pool := sanePool(r, 3+r.Intn(5))
+	if r.Chance(30) {
+		pool = collidingPool(r, 3+r.Intn(4))
+	}
+	c := &Case{ID: fmt.Sprintf("C08-%d-%d", cx.Seed, i)}
+	cfg := defaultFileCfg
+	cfg.commentPct, cfg.anonPct = 0, 10
+	c.Ops = append(c.Ops, genFileSetup(r, 0, pool, cfg)...)
+	g := validGen(r, pool)
+	g.dicts = r.Chance(30)
+	g.comments = false
+	reg := 0
+	steps := 3 + r.Intn(cx.N(10, 28))
+	var regs []int
+	for s := 0; s < steps; s++ {
+		switch r.Intn(10) {
+		case 0, 1, 2:
+			ops := addToFile(r, 0, g.decl(2+r.Intn(2)), &reg)
+			for _, o := range ops {
+				if o.Kind == OpStmt || o.Kind == OpFNew {
+					regs = append(regs, o.S)
+				}
+			}
+			c.Ops = append(c.Ops, ops...)
+		case 3:
+			// a statement with case blocks, possibly with nil bodies
+			reg++
+			regs = append(regs, reg)
+			body := []Arg{st(g.qual(), &Grp{Api: "Call"})}
+			if r.Bool() {
+				body = []Arg{Nil{}}
+			}
+			if r.Chance(30) {
+				body = nil
+			}
+			c.Ops = append(c.Ops, Op{Kind: OpStmt, S: reg, Items: []SItem{&Grp{Api: "Switch", Args: []Arg{st(id("x"))}}, &Grp{Api: "Block", Args: []Arg{
+				st(&Grp{Api: "Case", Args: []Arg{st(mkLit(1))}}, &Grp{Api: "Block", Args: body}),
+				st(kw("Default"), &Grp{Api: "Block", Args: body})}}}})
+			c.Ops = append(c.Ops, Op{Kind: OpFAdd, F: 0, Args: []Arg{st(kw("Func"), id(fmt.Sprintf("g%d", reg)), &Grp{Api: "Params"}, &Grp{Api: "Block", Args: []Arg{Ref{Reg: reg}}})}})
+		case 4:
+			p := pick(r, pool.Paths)
+			c.Ops = append(c.Ops, Op{Kind: OpHintName, F: 0, Str: []string{p, genHintName(r)}})
+		case 5:
+			p := pick(r, pool.Paths)
+			a := genHintName(r)
+			if r.Chance(40) {
+				a = "."
+			}
+			c.Ops = append(c.Ops, Op{Kind: OpHintAlias, F: 0, Str: []string{p, a}})
+		case 6:
+			if len(regs) > 0 {
+				c.Ops = append(c.Ops, Op{Kind: OpFrag, S: pick(r, regs), F: 0})
+				if r.Bool() {
+					c.Ops = append(c.Ops, Op{Kind: OpFrag, S: c.Ops[len(c.Ops)-1].S, F: 0})
+				}
+			}
+		default:
+			c.Ops = append(c.Ops, Op{Kind: OpRender, F: 0})
+			if r.Chance(60) {
+				c.Ops = append(c.Ops, Op{Kind: OpRender, F: 0})
+			}
+		}
+	}
+	c.Ops = append(c.Ops, Op{Kind: OpRender, F: 0}, Op{Kind: OpRender, F: 0})
+	return dropInsane(c)
 }
